@@ -11,6 +11,7 @@ import Mwp.Model.Choices
 import Mwp.WireAst
 import Mwp.Model.Analysis
 import Mwp.Spec.Calculus
+import Mwp.Lemmas.RelDefs
 import Mwp.Spec.BoundText
 open Lean Mwp Mwp.Wire
 
@@ -393,6 +394,71 @@ def checkC15 (j : Json) : R Json := do
   | none => pure ()
   pure (ok Json.null)
 
+
+-- ---------------------------------------------------------------- C10
+def relOps (j : Json) : R Json := do
+  let r1 ← relationOf (← field j "r1"); let r2 ← relationOf (← field j "r2")
+  let fx := match Relation.fixpoint r1 with
+    | .ok f => jRelation f
+    | .error e => Json.mkObj [("raised", Json.str e)]
+  pure (ok (Json.mkObj [("sum", jRelation (Relation.sum r1 r2)),
+    ("composition", jRelation (Relation.composition r1 r2)), ("fixpoint", fx)]))
+
+/-- C10 predicate on implementation results: s = r1 + r2, t = r1 * r2, f = fixpoint(r1),
+    tabulated over all 3^n choice vectors with the DOCUMENTED semiring tables. -/
+def checkC10 (j : Json) : R Json := do
+  let r1 ← relationOf (← field j "r1"); let r2 ← relationOf (← field j "r2")
+  let s ← relationOf (← field j "sum"); let t ← relationOf (← field j "composition")
+  let n ← fNat j "n"
+  let U := r1.vars ++ r2.vars.filter (fun v => !r1.vars.contains v)
+  for c in Spec.allChoices n do
+    let inf1 := U.any fun x => U.any fun y => r1.den c x y == .i
+    let inf2 := U.any fun x => U.any fun y => r2.den c x y == .i
+    for x in U do
+      for y in U do
+        let ws := Spec.docSum (r1.den c x y) (r2.den c x y)
+        if s.den c x y != ws then
+          return viol "sum-differs" [("choice", jList jNat c), ("x", Json.str x), ("y", Json.str y),
+            ("got", jScalar (s.den c x y)), ("want", jScalar ws)]
+        let wt := Spec.SMat.sumS (U.map fun k => Spec.docProd (r1.den c x k) (r2.den c k y))
+        if t.den c x y != wt then
+          return viol (if inf1 || inf2 then "composition-differs-at-infinite-choice" else "composition-differs")
+            [("choice", jList jNat c), ("x", Json.str x), ("y", Json.str y),
+             ("got", jScalar (t.den c x y)), ("want", jScalar wt)]
+    if (inf1 || inf2) && !(U.any fun x => U.any fun y => t.den c x y == .i) then
+      return viol "composition-loses-infinity" [("choice", jList jNat c)]
+    if (inf1 || inf2) && !(U.any fun x => U.any fun y => s.den c x y == .i) then
+      return viol "sum-loses-infinity" [("choice", jList jNat c)]
+  match fOpt j "fixpoint" with
+  | some fj =>
+    let f ← relationOf fj
+    if f.vars != r1.vars then return viol "fixpoint-variables-differ" []
+    for c in Spec.allChoices n do
+      let want := Spec.SMat.closure (r1.toSMat c)
+      if f.toSMat c != want then
+        return viol "fixpoint-is-not-closure" [("choice", jList jNat c), ("got", jSMat (f.toSMat c)), ("want", jSMat want)]
+  | none => pure ()
+  pure (ok Json.null)
+
+
+/-- equal meaning of two relations: same ∞-status at every one of the 3^n choices and equal
+    matrices at the ∞-free ones, over the union of their variables -/
+def checkRelEq (j : Json) : R Json := do
+  let a ← relationOf (← field j "a"); let b ← relationOf (← field j "b")
+  let n ← fNat j "n"
+  let U := a.vars ++ b.vars.filter (fun v => !a.vars.contains v)
+  for c in Spec.allChoices n do
+    let infA := U.any fun x => U.any fun y => a.den c x y == .i
+    let infB := U.any fun x => U.any fun y => b.den c x y == .i
+    if infA != infB then
+      return viol "infinity-status-differs" [("choice", jList jNat c), ("a", Json.bool infA), ("b", Json.bool infB)]
+    for x in U do
+      for y in U do
+        if !infA && a.den c x y != b.den c x y then
+          return viol "meaning-differs" [("choice", jList jNat c), ("x", Json.str x), ("y", Json.str y),
+            ("a", jScalar (a.den c x y)), ("b", jScalar (b.den c x y))]
+  pure (ok Json.null)
+
 end Ops
 
 def dispatch (op : String) (j : Json) : R Json :=
@@ -414,6 +480,9 @@ def dispatch (op : String) (j : Json) : R Json :=
   | "spec.sem_table" => Ops.semTableOp j
   | "check.func" => Ops.checkFunc j
   | "check.C15" => Ops.checkC15 j
+  | "model.rel_ops" => Ops.relOps j
+  | "check.C10" => Ops.checkC10 j
+  | "check.C10eq" => Ops.checkRelEq j
   | "model.choices" => Ops.choicesModel j
   | "model.choices_intersect" => Ops.choicesIntersect j
   | "check.C04" => Ops.checkC04 j
